@@ -546,7 +546,7 @@ Definition total_len (ss : list (list rec)) : nat := fold_right (fun s n => (len
 Definition merged (c : cfg) (ss : list (list rec)) : list trec :=
   let ps := map (pre c) ss in merge (total_len ps) ps.
 
-Record mst := { m_tasks : list st; m_enabled : bool }.
+Record mst := { m_tasks : nat -> st; m_enabled : bool }.
 Definition with_enabled (s : st) (b : bool) : st :=
   {| below := below s; above := above s; inc := inc s; outc := outc s; fdepth := fdepth s; enabled := b;
      disp := disp s; disp_set := disp_set s; started := started s |}.
@@ -556,14 +556,16 @@ Fixpoint upd {A} (i : nat) (v : A) (l : list A) : list A :=
   | _ :: r, O => v :: r
   | x :: r, S j => x :: upd j v r
   end.
-Definition m_init (c : cfg) (n : nat) : mst := {| m_tasks := repeat (st0 c) n; m_enabled := true |}.
-Definition task_of (c : cfg) (m : mst) (t : nat) : st := with_enabled (nth t (m_tasks m) (st0 c)) (m_enabled m).
-Definition put_task (m : mst) (t : nat) (s : st) : mst := {| m_tasks := upd t s (m_tasks m); m_enabled := enabled s |}.
+Definition m_init (c : cfg) : mst := {| m_tasks := fun _ => st0 c; m_enabled := true |}.
+(* a task's state as the code sees it: its own fields plus the shared flag *)
+Definition task_of (m : mst) (t : nat) : st := with_enabled (m_tasks m t) (m_enabled m).
+Definition put_task (m : mst) (t : nat) (s : st) : mst :=
+  {| m_tasks := fun t' => if Nat.eqb t' t then s else m_tasks m t'; m_enabled := enabled s |}.
 
 Definition tev := (nat * vev)%type.
 Definition m_std_step (c : cfg) (m : mst) (tr : trec) : mst * list tev :=
   let '(t, r) := tr in
-  let '(s', o) := std_step c (task_of c m t) r in (put_task m t s', map (pair t) o).
+  let '(s', o) := std_step c (task_of m t) r in (put_task m t s', map (pair t) o).
 
 Fixpoint m_run {S} (step : S -> trec -> S * list tev) (s : S) (trs : list trec) : S * list tev :=
   match trs with
@@ -572,17 +574,17 @@ Fixpoint m_run {S} (step : S -> trec -> S * list tev) (s : S) (trs : list trec) 
   end.
 
 Definition run_std_m (c : cfg) (ss : list (list rec)) : list tev :=
-  snd (m_run (m_std_step c) (m_init c (length ss)) (merged c ss)).
+  snd (m_run (m_std_step c) (m_init c) (merged c ss)).
 
 (* dump --chrome: after the last record the open calls of every task are closed, task by task *)
 Definition last_time (rs : list rec) : N := r_time (last rs {| r_time := 0; r_type := EXIT; r_depth := 0; r_fn := 0 |}).
 Definition run_chrome_m (c : cfg) (ss : list (list rec)) : list tev :=
-  let '(m, o) := m_run (m_std_step c) (m_init c (length ss)) (merged c ss) in
-  o ++ flat_map (fun t => map (pair t) (chrome_close c (task_of c m t) (last_time (pre c (nth t ss [])))))
+  let '(m, o) := m_run (m_std_step c) (m_init c) (merged c ss) in
+  o ++ flat_map (fun t => map (pair t) (chrome_close c (task_of m t) (last_time (pre c (nth t ss [])))))
                 (seq 0 (length ss)).
 Definition remaining_m (c : cfg) (ss : list (list rec)) : list N :=
-  let m := fst (m_run (m_std_step c) (m_init c (length ss)) (merged c ss)) in
-  flat_map (fun s => map sl_fn (below s)) (m_tasks m).
+  let m := fst (m_run (m_std_step c) (m_init c) (merged c ss)) in
+  flat_map (fun t => map sl_fn (below (m_tasks m t))) (seq 0 (length ss)).
 
 (* dump (raw): one data file after the other, not merged; the global flag is carried over *)
 Definition run_raw_m (c : cfg) (ss : list (list rec)) : list tev :=
@@ -598,7 +600,7 @@ Definition lift_mode (t : nat) (m : mode) : mmode :=
   match m with Normal => MNormal | Skipping e d => MSkipping t e d end.
 
 Definition m_rp_normal (c : cfg) (m : mst) (t : nat) (r : rec) : (mst * mmode) * list tev :=
-  let '((s', md), o) := rp_normal c (task_of c m t) r in ((put_task m t s', lift_mode t md), map (pair t) o).
+  let '((s', md), o) := rp_normal c (task_of m t) r in ((put_task m t s', lift_mode t md), map (pair t) o).
 
 Definition m_rp_step (c : cfg) (mm : mst * mmode) (tr : trec) : (mst * mmode) * list tev :=
   let '(m, md) := mm in
@@ -607,11 +609,11 @@ Definition m_rp_step (c : cfg) (mm : mst * mmode) (tr : trec) : (mst * mmode) * 
   | MNormal => m_rp_normal c m t r
   | MSkipping te e d =>
       let pend := (te, mkev false e d) in
-      let print_pending (m0 : mst) : mst := put_task m0 te (update_entry (task_of c m0 te)) in
+      let print_pending (m0 : mst) : mst := put_task m0 te (update_entry (task_of m0 te)) in
       let go_on :=                                     (* not a leaf: print the ENTRY, main loop reads r *)
         let '(mm', o) := m_rp_normal c (print_pending m) t r in (mm', pend :: o) in
       let swallow :=
-        let s1 := consume c (task_of c m t) r in
+        let s1 := consume c (task_of m t) r in
         let s2 := match r_type r with ENTRY => fst (fstack_entry c s1 r) | EXIT => fstack_exit c s1 end in
         let m2 := put_task m t s2 in
         if enabled s2 then ((m2, MSkipping te e d), [])
@@ -620,18 +622,18 @@ Definition m_rp_step (c : cfg) (mm : mst * mmode) (tr : trec) : (mst * mmode) * 
         match r_type r with
         | EXIT =>
             if r_depth r =? r_depth e
-            then ((put_task m t (fstack_exit c (consume c (task_of c m t) r)), MNormal), [pend; (t, mkev true r d)])
+            then ((put_task m t (fstack_exit c (consume c (task_of m t) r)), MNormal), [pend; (t, mkev true r d)])
             else go_on
         | ENTRY => go_on
         end
       else if hidden_plt c (r_fn r) then swallow
-      else if check_skip c (task_of c m t) r >=? 0 then go_on
+      else if check_skip c (task_of m t) r >=? 0 then go_on
       else swallow
   end.
 Definition m_rp_finish (mm : mst * mmode) : list tev :=
   match snd mm with MNormal => [] | MSkipping t e d => [(t, mkev false e d)] end.
 Definition run_rp_m (c : cfg) (ss : list (list rec)) : list tev :=
-  let '(mm, o) := m_run (m_rp_step c) (m_init c (length ss), MNormal) (merged c ss) in o ++ m_rp_finish mm.
+  let '(mm, o) := m_run (m_rp_step c) (m_init c, MNormal) (merged c ss) in o ++ m_rp_finish mm.
 Definition run_script_m (c : cfg) (ss : list (list rec)) : list tev := run_rp_m (set_no_merge c true) ss.
 
 (* graph: one tree per session, every task keeps its own current node *)
